@@ -259,6 +259,16 @@ def run_unit(u):
                 if rng.random() < .5:
                     h.attrs['data-Key'] = rng.choice(['x', 'X y'])
                 bump('mixed_case_attribute_keys')
+            if forced is None and rng.random() < .12:
+                # element names that differ only in ASCII case: one type in an HTML tree (only the API can make them), two in XML
+                def recase(e):
+                    for k in e.kids:
+                        if isinstance(k, E):
+                            if k.name in trees.NAMES and rng.random() < .35:
+                                k.name = k.name.upper()
+                            recase(k)
+                recase(root)
+                bump('mixed_case_element_names')
             tops, mode = trees.wrap(rng, root)
             how = rng.choice(HOWS)
             for j in range(4):
